@@ -1503,6 +1503,12 @@ class Walker:
             cur = vals[0]
             result = True
             for op, nxt in zip(node.ops, vals[1:]):
+                if self.exact_loops and isinstance(op, (ast.In, ast.NotIn)) and cur.kind == "const" and nxt.kind == "const" \
+                        and isinstance(nxt.value, (str, bytes)) and type(cur.value) in (type(None), int, float, bool, tuple, list, dict) \
+                        and not (isinstance(nxt.value, bytes) and isinstance(cur.value, int) and not isinstance(cur.value, bool)):
+                    # `None in "i7"`: 'in <string>' requires string as left operand
+                    s.add(Event("raise", node, "TypeError", self.frame, "implicit"))
+                    return [("raise", "TypeError", s)]
                 r = _compare(op, cur, nxt)
                 if r is None:
                     return [("val", UNK, s)]
